@@ -20,9 +20,9 @@ from pathlib import Path
 from typing import Any, Callable, Dict, Iterable, List, Optional, Sequence
 
 VERIF_DIR = Path(__file__).resolve().parent.parent
-OUT_DIR = VERIF_DIR / "out"
+OUT_DIR = Path(os.environ.get("VERIF_OUT_DIR") or VERIF_DIR / "out")
 REPLAY_DIR = OUT_DIR / "replays"
-EVIDENCE_DIR = VERIF_DIR / "evidence"
+EVIDENCE_DIR = Path(os.environ.get("VERIF_EVIDENCE_DIR") or VERIF_DIR / "evidence")
 KNOWN_FINDINGS = VERIF_DIR / "KNOWN_FINDINGS.txt"
 REPO = Path(os.environ.get("VERIF_REPO", "/repo")).resolve()
 SHM = Path("/dev/shm") if Path("/dev/shm").is_dir() else Path("/tmp")
